@@ -844,17 +844,25 @@ pub fn check(o: &CheckOpts) -> i32 {
             Ev::Cx => Ph::Cx(1.5f64.to_bits(), (-2.5f64).to_bits()),
             Ev::Num => Ph::NumI(3),
         };
-        for i in 0..(65536 + 200) {
+        for i in 0..(65536 + 200 + 64) {
             let id = cand.by_expr.len() as u32;
             cand.by_expr.push(vec![i as u32]);
-            let text = format!("{}+@", i);
+            // short and long formulas alternate (state that only engages above a length threshold sees half of them:
+            // consecutive powers of two as bases cover both); the last 64 are distinct failing calls
+            let text = if i >= 65536 + 200 {
+                format!("({}+@)*(1+0)+0*(2-{}", i, i)
+            } else if i % 2 == 0 {
+                format!("{}+@", i)
+            } else {
+                format!("({}+@)*(1+0)+0*(2-{})", i, i)
+            };
             cand.by_text.entry(text.clone()).or_default().push(id);
             cand.entries.push(gen::Entry { call: Call { ev: *ev, expr: text, ph }, expr_id: id, origin: "filler", oracle: Outcome::Panic(String::new()), ticks: 0, trace: 0, sensitive: false, text_id: 0 });
         }
 
         let (mut fp, fst) = oracle::oracle_pass(cand, w, 0);
 
-        if fst.kept == fst.candidates {
+        if fst.kept == fst.candidates && fp.entries.iter().take(65536 + 200).all(|e| matches!(e.oracle, Outcome::Ok(_))) {
             let fix = workload::index_pool(&mut fp);
 
             oc.seed_from_pool(&fp);
@@ -864,12 +872,24 @@ pub fn check(o: &CheckOpts) -> i32 {
     println!("stall-and-wrap filler pools: {} evaluators ready at {:.1}s", filler_pools.len(), t0.elapsed().as_secs_f64());
     let mut stall_batches: Vec<(BatchStats, usize, u64, RunKind)> = Vec::new();
     for (pi, (fp, fix)) in filler_pools.iter().enumerate() {
-        let small_n = if t.name == "quick" { 32 } else { 256 };
-        let big_n = if t.name == "quick" { 6 } else { 48 };
-        let b1 = run_batch("stall_wrap_2^8", fp, fix, o.seed, 40 + pi as u64, RunKind::StallWrap { base: 256 }, small_n, w, Duration::from_secs(20), None, false, 0, 2, false);
-        stall_batches.push((b1, pi, 40 + pi as u64, RunKind::StallWrap { base: 256 }));
-        let b2 = run_batch("stall_wrap_2^16", fp, fix, o.seed, 50 + pi as u64, RunKind::StallWrap { base: 65536 }, big_n, w, Duration::from_secs(90), Some(Instant::now() + Duration::from_secs(if t.name == "quick" { 25 } else { 240 })), false, 0, 2, false);
-        stall_batches.push((b2, pi, 50 + pi as u64, RunKind::StallWrap { base: 65536 }));
+        // a generation counter, ticket or ring of 2^k entries wraps after 2^k (+ d) operations: every k from 8 to 16
+        let names = ["stall_wrap_2^8", "stall_wrap_2^9", "stall_wrap_2^10", "stall_wrap_2^11", "stall_wrap_2^12", "stall_wrap_2^13", "stall_wrap_2^14", "stall_wrap_2^15", "stall_wrap_2^16"];
+        for (ki, k) in (8u32..=16).enumerate() {
+            let base = 1usize << k;
+            let n_runs = match (t.name, k) {
+                ("quick", 16) => 6,
+                ("quick", 15) => 8,
+                ("quick", 14) => 16,
+                ("quick", _) => 32,
+                (_, 8) => 256,
+                (_, 16) => 48,
+                _ => 64,
+            };
+            let stream = 40 + (ki as u64) * 4 + pi as u64;
+            let budget = if t.name == "quick" { if k >= 15 { 12 } else { 6 } } else { 120 };
+            let b = run_batch(names[ki], fp, fix, o.seed, stream, RunKind::StallWrap { base }, n_runs, w, Duration::from_secs(if k >= 14 { 90 } else { 30 }), Some(Instant::now() + Duration::from_secs(budget)), false, 0, 2, false);
+            stall_batches.push((b, pi, stream, RunKind::StallWrap { base }));
+        }
     }
     let mut all_batches: Vec<(BatchStats, u64, RunKind, Option<usize>)> = vec![
         (d16, 11u64, RunKind::Short, None),
@@ -1144,11 +1164,11 @@ pub fn check(o: &CheckOpts) -> i32 {
             "components": {
                 "real": ["string_calculator (all five eval_* stacks and utils, built from /repo's working tree with feature verif_hooks; compiler-inserted SanitizerCoverage callbacks add calls only)", "rust_decimal", "num-complex", "num-traits", "arrayvec", "std threads / TLS / statics / allocator of the real process"],
                 "stubbed": [],
-                "simulated": ["caller threads' scheduling (baton; every switch chosen by the run's PRNG or a recorded switch list)", "call histories", "thread lifecycle (spawn / retire / respawn, exits serialised)", "blocking on library locks (futex waits inside calls become scheduling decisions)", "wall and monotonic clocks inside calls (virtual time with injected jumps)", "the caller's stack depth", "ambient inputs of the oracle (environment, address-space layout, cwd) in the recheck"],
+                "simulated": ["caller threads' scheduling (baton; every switch chosen by the run's PRNG or a recorded switch list)", "call histories", "thread lifecycle (spawn / retire / respawn, exits serialised)", "blocking on library locks (futex waits inside calls become scheduling decisions)", "threads the library creates itself (pthread_create inside a call: adopted by the scheduler, up to 24 per run; beyond that, and in the isolated oracle evaluations, they run free)", "sleeps, timed waits and yields inside the library (virtual time; the scheduler decides when a timer fires)", "entropy (getrandom: seeded per run on the threads of a simulated run, the kernel's elsewhere)", "wall and monotonic clocks inside calls (virtual time with injected jumps)", "the caller's stack depth", "ambient inputs of the oracle (environment, address-space layout, cwd) in the recheck"],
             },
         },
         "assumptions": [
-            "interleavings are explored at the granularity of the verif_hooks tick sites under sequential consistency; state written and read between two adjacent ticks is atomic to the simulator",
+            "interleavings are explored at the granularity reported in coverage.granularity (basic-block edges and every load / store of the instrumented library crates, plus the verif_hooks sites) under sequential consistency; code of std and libc between two such points is atomic to the simulator, and weaker-than-SC behaviours are only sampled by the Miri pass",
             "the oracle is the library's own result for the same call in a fresh process that makes no other call",
             "a run that hits the per-call step cap or blocks on a primitive the simulator cannot see yields no verdict (counted above), never an alarm",
             "sampling, not enumeration: a clean batch is evidence, not proof",
@@ -1362,17 +1382,33 @@ pub fn unused(_: Exit) {}
 /// debugging aid: run one seed of the selftest's short stream `reps` times from this process and print the records
 pub fn debug_seed(o: &CheckOpts, stream: u64, idx: usize, reps: usize, pad: usize) -> i32 {
     let t = tier("quick");
-    let cand = gen::build_pool(o.seed, &o.repo, &t.sizes, None);
+    let hints = change_hints(&o.repo, &o.verif);
+    let focus = if hints.files.is_empty() { None } else { Some(gen::PoolFocus { evs: hints.evs.clone(), tokens: hints.tokens.clone() }) };
+    let cand = gen::build_pool(o.seed, &o.repo, &t.sizes, focus.as_ref());
     let (mut pool, _ost) = oracle::oracle_pass(cand, o.workers, 0);
-    let ix = workload::index_pool(&mut pool);
+    let mut ix = workload::index_pool(&mut pool);
+    if !hints.files.is_empty() {
+        ix.hint_evs = hints.evs.clone();
+        for (bi, (ev, tok, _)) in ix.fn_buckets.iter().enumerate() {
+            let ev_ok = hints.evs.is_empty() || hints.evs.iter().any(|e| *e as u8 == *ev);
+            let tok_ok = hints.tokens.is_empty() || hints.tokens.iter().any(|t| t == tok);
+            if ev_ok && tok_ok && !(hints.evs.is_empty() && hints.tokens.is_empty()) {
+                ix.hint_buckets.push(bi);
+            }
+        }
+    }
     // vary the parent's allocation history
     let _padding: Vec<Vec<u8>> = (0..pad).map(|i| vec![0u8; 1000 + i * 37]).collect();
     for _ in 0..reps {
         let mut spec = workload::make_spec(&pool, &ix, seed_for(o.seed, stream, idx), RunKind::Short, true);
         spec.want_trace = true;
         let mut got: Option<RunResult> = None;
-        proc::zmap(1, 1, Duration::from_secs(5), None, &mut || true, &mut |_| Some(crate::wire::encode_run(&pool, &spec)), &mut |_, bytes, exit| got = Some(classify(&bytes, exit)));
+        let tmo = std::env::var("SC_DEBUG_TIMEOUT_S").ok().and_then(|s| s.parse().ok()).unwrap_or(5u64);
+        proc::zmap(1, 1, Duration::from_secs(tmo), None, &mut || true, &mut |_| Some(crate::wire::encode_run(&pool, &spec)), &mut |_, bytes, exit| got = Some(classify(&bytes, exit)));
         let r = got.unwrap_or(RunResult { status: "crashed".into(), rec: Value::Null });
+        if r.status != "ok" {
+            println!("rec: {}", r.rec.to_string().chars().take(600).collect::<String>());
+        }
         println!("{} {} h={} sw={} shh={} fw={} ticks={} switches={}", spec.policy.name(), r.status, r.hash(), r.rec["sw"], r.rec["shh"], r.rec["fw"], r.rec["ticks"], r.rec["switches"].to_string().chars().take(300).collect::<String>());
     }
     0
